@@ -68,3 +68,14 @@ def to_int(val: Any) -> int:
     except OverflowError as err:
         # float infinity: not an integer, just like NaN (which is a ValueError)
         raise ValueError(str(err)) from err
+
+
+def to_str(val: Any) -> str:
+    """`str(val)`, raising a Liquid error for an integer that is too long.
+
+    The int to str direction of the int/str conversion limit. See `to_int`.
+    """
+    try:
+        return str(val)
+    except ValueError as err:
+        raise LiquidValueError(str(err), token=None) from err
